@@ -64,6 +64,18 @@ def oracle(line, toks_types, fail):
     if int(ctxbad) != 0:
         return "$Context did not denote the parser's Context value"
     calls = re.findall(r"\[(?:[^\[\]]|\[[^\[\]]*\])*\]", log)
+    # number of action calls = top-level [..] entries of the log (error attributes nest brackets)
+    ncalls, depth = 0, 0
+    for ch in log:
+        if ch == "[":
+            ncalls += 1 if depth == 0 else 0
+            depth += 1
+        elif ch == "]":
+            depth -= 1
+    if fail is not None and ncalls > fail + 1:
+        return "the %d-th action call was made to fail but %d calls were made (further actions ran; recovery or not)" % (fail, ncalls)
+    if fail is not None and ncalls == fail + 1 and kind == "OK":
+        return "the %d-th action call was made to fail but Parse returned a nil error" % fail
     if kind == "OK":
         if "[" in body.replace("[", "", 0) and "(err" in body:
             return None  # recovered parses are C07's subject
@@ -130,19 +142,30 @@ def run(ctx):
     recs, stats, ws = lrcommon.prepare_parsers(ctx, cands, flags=[])
     recs = [r for r in recs if r.bin][: (36 if not thorough else 400)]
     res, errs = lrobl.check_all(recs, lrobl.LR_CHECKS, "c03")
+    # grammars WITH error alternatives: a failing action must end the parse there too (no recovery from an action's error); their
+    # tables are validated by C07's obligations, here: the failing-call clause on the implementation + correspondence with the model
+    ecands = [cfggen.family(i) for i in (7, 8, 10)] + [g for g in c02.gen_grammars(ctx, 60 if not thorough else 500, with_error=True)]
+    ecands = [g for g in ecands if g.has_error()]
+    erecs, estats, ws = lrcommon.prepare_parsers(ctx, ecands, flags=[], ws=ws, prefix="e")
+    erecs = [r for r in erecs if r.bin][: (12 if not thorough else 120)]
+    error_grammar_names = set(r.name for r in erecs)
+    recs = recs + erecs
     total, disagreements, reported = 0, 0, 0
+    corr_bad = []
     distinct = set()
     hist = collections.Counter()
     samples = []
     for r in recs:
-        ok = bool(res.get(r.name)) and all(res[r.name].values())
-        ctx.add_obligation("R: lr_valid(gocc's tables for %s) = true by vm_compute" % r.name, ok, str(res.get(r.name)) + str(errs[:1]))
+        iserr = r.name in error_grammar_names
+        if not iserr:
+            ok = bool(res.get(r.name)) and all(res[r.name].values())
+            ctx.add_obligation("R: lr_valid(gocc's tables for %s) = true by vm_compute" % r.name, ok, str(res.get(r.name)) + str(errs[:1]))
         inputs = []
         for _ in range(120 if not thorough else 300):
             s = cfggen.gen_sentence(r.g, ctx.rng, budget=ctx.rng.choice([3, 6, 10])) or []
-            if ctx.rng.random() < 0.15:
+            if ctx.rng.random() < (0.15 if not iserr else 0.5):
                 s = cfggen.mutate(s, r.g.terms, ctx.rng)
-            fail = ctx.rng.choice([None, None, 0, 1, 2, 3, 5])
+            fail = ctx.rng.choice([None, None, 0, 1, 2, 3, 5] if not iserr else [None, 0, 1, 2, 3, 4, 5, 7])
             inputs.append((s, fail))
         cases = [lrcommon.encode_case(r, [(s, f, False)]) for (s, f) in inputs]
         go = [c02.norm(x) for x in lrcommon.run_impl(r, cases)]
@@ -161,12 +184,16 @@ def run(ctx):
                 reported += 1
             elif gl != ml:
                 disagreements += 1
-                if reported < 3:
-                    ctx.violation({"kind": "correspondence-broken", "correspondence": "generated Parse (values, action log) vs LR/Parse.v",
-                                   "grammar": r.text, "tokens": s, "fail_call": f, "go": gl, "model": ml}, found_input=False)
-                    reported += 1
+                if len(corr_bad) < 3:
+                    corr_bad.append({"kind": "correspondence-broken", "correspondence": "generated Parse (values, action log) vs LR/Parse.v",
+                                     "grammar": r.text, "tokens": s, "fail_call": f, "go": gl, "model": ml})
         if len(samples) < 3:
             samples.append({"grammar": r.text, "case": cases[0], "parser": go[0]})
+    # inputs on which the property itself fails are reported first; broken correspondences only as far as room is left
+    for cb in corr_bad:
+        if reported < 3:
+            ctx.violation(cb, found_input=False)
+            reported += 1
     for o in ctx.failed_obligations():
         if reported < 6:
             ctx.violation({"kind": "proof-obligation-broken", "obligation": o}, found_input=False)
